@@ -25,13 +25,13 @@ Qed.
 Lemma line_crlf_cut l o r : line_crlf l = Some (o, r) ->
   exists pre, l = pre ++ r /\ pre <> [] /\ forall t, line_crlf (pre ++ t) = Some (o, t).
 Proof.
-  unfold line_crlf. destruct (to_lf l) as [[bf r0]|] eqn:E; [|discriminate].
+  rewrite line_crlf_unfold. destruct (to_lf l) as [[bf r0]|] eqn:E; [|discriminate].
   intros H. destruct (to_lf_cut _ _ _ E) as [Hl Ht].
   assert (Hr : r = r0).
   { destruct (rev bf) as [|x rb]; [inversion H; reflexivity|]. destruct x; inversion H; reflexivity. }
   subst r0. exists (bf ++ [x0a]). split; [exact Hl|]. split.
   - destruct bf; discriminate.
-  - intros t. rewrite Ht.
+  - intros t. rewrite line_crlf_unfold, Ht.
     destruct (rev bf) as [|x rb]; [inversion H; reflexivity|]. destruct x; inversion H; reflexivity.
 Qed.
 
